@@ -48,8 +48,7 @@ class TaskGenerator:
         self.stopped = False
 
         # Filter nodes and partition into subsets of size ``gran``.
-        filter_func = getattr(mutator, 'filter', lambda x: True)
-        filtered = list(nodes.filter_nodes(exprs, filter_func, max_depth))
+        filtered = list(nodes.filter_nodes(exprs, self.__filter, max_depth))
         self.num_filtered = len(filtered)
         self.gran = len(filtered) if gran is None else gran
         self.subsets = _partition(filtered, self.gran) if self.gran else []
@@ -72,11 +71,17 @@ class TaskGenerator:
             # Filter nodes in subset in order to ensure that the mutator still
             # applies after updating ``self.exprs`` via ``self.update``.
             subset = self.subsets[task_id]
-            subset = [n for n in subset if self.mutator.filter(n)]
+            subset = [n for n in subset if self.__filter(n)]
             if not subset:
                 continue
 
-            simps = self.__get_substs(subset)
+            try:
+                simps = self.__get_substs(subset)
+            except Exception as e:
+                # A failing mutator only costs its own candidates.
+                logging.info(f'{type(e)} in application of {self.mutator}: '
+                             f'{e}')
+                continue
 
             if not simps:
                 continue
@@ -86,6 +91,19 @@ class TaskGenerator:
                 return Task(task_id, self.pickled_exprs, pickle.dumps(simps))
             return Task(task_id, self.exprs, simps)
         raise StopIteration
+
+    def __filter(self, node):
+        """Check whether ``self.mutator`` applies to ``node``.
+
+        A mutator whose filter fails does not apply.
+        """
+        if not hasattr(self.mutator, 'filter'):
+            return True
+        try:
+            return self.mutator.filter(node)
+        except Exception as e:
+            logging.info(f'{type(e)} in filter of {self.mutator}: {e}')
+            return False
 
     def __get_substs(self, subset):
         """Generate substitutions for ``subset`` based on ``self.mutator``."""
